@@ -77,6 +77,8 @@ pub struct Ctx {
     pub worker: usize,
     pub nworkers: usize,
     pub replaying: bool,
+    /// sanitizer runs: never run the full battery (Miri is ~4 orders of magnitude slower)
+    pub lite_only: bool,
 
     pub evaluations: u64,
     pub distinct: HashSet<u64>,
@@ -107,6 +109,7 @@ impl Ctx {
             worker,
             nworkers,
             replaying: false,
+            lite_only: prop == "SANIT" && tier == Tier::Tiny,
             evaluations: 0,
             distinct: HashSet::new(),
             states: HashSet::new(),
